@@ -7,6 +7,10 @@ ids = [json.loads(l)["id"] for l in open(os.path.join(HERE, "properties.jsonl"))
 TECH = "bounded model checking of the real code: Kani 0.68 -> CBMC 6.11 (cadical SAT); symbolic inputs, concrete sizes, unwinding assertions on; counterexamples replayed natively"
 
 CLAIMED = {
+ "C04": dict(
+   text="CBMC decides, for the real #[entry_points] expansion of corpus `basic` (19 handlers in 5 kinds, wire name `tick{n}` present as exec, query AND sudo, instantiate and migrate sharing their argument names): every well-formed message of kind K1 (symbolic choice and argument values), decoded by the real contract-level message of kind K2 != K1 and, when accepted, pushed through entry_points::<K2> with echo handlers, never runs a handler annotated with another kind; it is rejected unless K2 itself has a message of that name/shape, in which case K2's OWN handler runs. One harness per ordered pair of kinds.",
+   note="facade container model (validated by a native pre-flight against the real container); the cw_multi_test::Contract byte path and the reply kind are outside; error text stubbed; program dimension sampled by one contract + 2 interfaces",
+   ref="§3 C04"),
  "C03": dict(
    text="CBMC runs the REAL generated Contract{Exec,Query,Sudo}Msg::deserialize glue (and the derived decoders of every part on the same document) for a received name with symbolic bytes of each length 3..7, concrete body layouts with symbolic values, and the top-level shapes string/null/number/{}/two keys/{name:number}: the wrapper accepts iff exactly one part accepts, holds that part's variant with a payload equal to the part's own decoding; everything else is an error without panic; the wrapper serialises to the same serde events as the part. For corpus `names` (leading/repeated underscores, digits) the published list equals the set of names the decoder accepts, for every received name of length 1..8.",
    note="the serde_cw_value container is replaced by a bounded two-level model (hw/facade; <=3 entries, strings <=8 bytes; overflow asserted absent) which is validated natively against the real container and real JSON text on 40 documents in every run (pre-flight), the error TEXT (format!, String::push_str stubbed) and the JSON text layer are outside; program dimension sampled (3 corpus contracts)",
